@@ -16,13 +16,18 @@ the queue is drained FIFO):
   twosignals  two persistent SignalStage(g) on a NOT_STARTED stage WITHOUT task rows (stage type `gen`: tasks are built at planning time) — the
           stage-row version check is the only guard (no per-task version check can reject the stale writer); B is injected, among all legal
           points, between the `SELECT` at the head of A's `txn.store_stage` and its UPDATE (the first DML opens the transaction)
+  wfrow   the WORKFLOW row (pipeline_executions): CancelWorkflow vs a handler that writes the workflow status from its in-memory Workflow —
+          `start`: fresh workflow, StartWorkflow x CancelWorkflow; `complete`: last stage done, CompleteWorkflow x CancelWorkflow.
+          Monitors only (no CasRow tie: the row has no version column, its writers are plain column UPDATEs): a history trigger on
+          pipeline_executions (`_ep_whist`) — no committed write reverts is_canceled 1 -> 0, clears canceled_by / cancellation_reason or
+          leaves a final status; C17 clause: once the cancel flag was committed it is still 1 at the end and no task execution begins
   startjoin  StartStage(j) vs CompleteStage(u_next) on a join stage j with 3 upstreams whose tracking list ALREADY names the upstreams
           completed in the prefix (DISCRIMINATOR / N_OF_M 1: u1; N_OF_M 2: u1, u2): the sibling's `_update_join_tracking` UPDATES the
           existing `_completed_branches` key between StartStage's claim commit and its plan commit (merge-on-retry of the plan commit)
   startsignal  StartStage(g) vs a SECOND persistent SignalStage(g), one persistent signal already buffered in the prefix: the signal handler
           UPDATES the existing `_buffered_signals` key inside StartStage's claim -> plan window
 
-The same schedules serve two properties (`start(ctx, prop)`): C07 applies the lost-update oracles below, C06 applies its own oracle to
+The same schedules serve three properties (`start(ctx, prop)`; C17 runs the `wfrow` kinds only, with the cancel-flag oracle): C07 applies the lost-update oracles below, C06 applies its own oracle to
 the durable status audit of every schedule (`_mb_audit`: every committed status change of a stage / task / workflow row must be a
 legal transition of `stabilize.models.status.can_transition`; completed statuses have no successor).
 
@@ -40,6 +45,7 @@ from __future__ import annotations
 import json
 import logging
 import os
+import re
 import shutil
 import time
 from dataclasses import asdict, dataclass
@@ -50,7 +56,8 @@ SUITE = "engine-pairs-cas"
 SIG = {"join": "engine-pair:lost-update:join-tracking", "signal": "engine-pair:lost-update:signal-vs-result",
        "cancel": "engine-pair:reverted:cancel-vs-complete", "cancelrun": "engine-pair:reverted:cancel-vs-result",
        "startjoin": "engine-pair:lost-update:start-vs-join-tracking", "startsignal": "engine-pair:lost-update:start-vs-signal",
-       "cancelstart": "engine-pair:reverted:cancel-vs-start", "twosignals": "engine-pair:lost-update:signal-vs-signal"}
+       "cancelstart": "engine-pair:reverted:cancel-vs-start", "twosignals": "engine-pair:lost-update:signal-vs-signal",
+       "wfrow": "engine-pair:reverted:workflow-row"}
 SIG_VERSION = "engine-pair:version-not-bumped-by-one"
 SIG_SEQ = "engine-pair:outcome-differs-from-both-sequential-orders"
 SIG_STUCK = "engine-pair:no-quiescence"
@@ -65,6 +72,8 @@ RULE = ("engine pairs (Mode B, exhaustive per scenario): join = fan-in u1..un ->
         "fanned out by a CancelWorkflow handled in the prefix (flag set); raced StartStage(i) x CancelStage(i); "
         "twosignals = g -> d with g NOT_STARTED and WITHOUT task rows (tasks built at planning time), StartStage(g) held back and two persistent "
         "SignalStage(g) pending, raced against each other; startsignal also in a variant whose stage g has no task rows (nt=0); "
+        "wfrow (the workflow row) = i -> d, either fresh with StartWorkflow pending or with every stage done and CompleteWorkflow pending, plus a pushed "
+        "CancelWorkflow; raced StartWorkflow / CompleteWorkflow x CancelWorkflow; "
         "startjoin (states WITH HISTORY) = fan-in u1..u3 -> j -> d, join DISCRIMINATOR / N_OF_M (threshold 1, 2), the first max(1, threshold) CompleteStage(u*) "
         "delivered in the prefix so that j's `_completed_branches` already exists and StartStage(j) is pending and ready, raced StartStage(j) x "
         "CompleteStage(next upstream) (thorough: the remaining CompleteStage nested as C); startsignal = g -> d with StartStage(g) pending, one persistent "
@@ -86,7 +95,11 @@ TRUSTED_BASE = ["engine pairs: the mapping store-level call log -> CasRow op lis
                 "merge must be equivalent to on the keys another worker writes; the observed payload carries one entry per successful write of a worker "
                 "whose contribution (branch in `_completed_branches`, second signal in `_buffered_signals`) is in the final context",
                 "engine pairs on task-less stages (stage type `gen` of harness/modeb.py: `build_tasks` creates the task at planning time): only the task rows "
-                "that existed at the base state are part of the compared abstraction (the rows a StartStage inserts at planning are not)"]
+                "that existed at the base state are part of the compared abstraction (the rows a StartStage inserts at planning are not)",
+                "engine pairs on the workflow row (`wfrow`): MONITORS ONLY, no CasRow tie — pipeline_executions has no version column and its writers "
+                "(cancel_execution, update_status, AtomicTransaction.update_workflow_status) are plain column UPDATEs, so the optimistic-locking model "
+                "does not describe it; the oracle is the committed history of the row (trigger `_ep_whist`) and the task ledger; 'the cancel was accepted' "
+                "= a write with is_canceled = 1 committed; the Lean engine model's `canceled_monotone` states the same monotonicity for the model only"]
 
 
 # --------------------------------------------------------------------------------------
@@ -95,12 +108,13 @@ TRUSTED_BASE = ["engine pairs: the mapping store-level call log -> CasRow op lis
 
 @dataclass(frozen=True)
 class Scn:
-    kind: str                    # join | signal | cancel | cancelrun | cancelstart | twosignals | startjoin | startsignal
+    kind: str                    # join | signal | cancel | cancelrun | cancelstart | twosignals | startjoin | startsignal | wfrow
     n_up: int = 2                # join: upstream branches
     join: str = "DISCRIMINATOR"  # join: join type
     th: int = 0                  # join: threshold (N_OF_M)
     res: str = "running"         # signal / cancelrun: task answer on its first execution: running | success (both with context) | terminal
                                  # cancelstart: where the CancelStage comes from: direct | workflow
+                                 # wfrow: which status-writing handler is raced with CancelWorkflow: start | complete
     nt: int = 1                  # cancel / cancelstart: tasks of the stage; startsignal: 1 = predefined task, 0 = no task rows until planned
 
     def key(self) -> str:
@@ -118,10 +132,12 @@ class Scn:
             return "start-signal" + ("" if self.nt else "-taskless")
         if self.kind == "twosignals":
             return "two-signals-taskless"
+        if self.kind == "wfrow":
+            return f"wfrow-{self.res}"
         return f"cancel-t{self.nt}"
 
     def contended(self) -> str:
-        return {"join": "j", "signal": "g", "cancel": "i", "cancelrun": "i", "cancelstart": "i", "startjoin": "j", "startsignal": "g", "twosignals": "g"}[self.kind]
+        return {"join": "j", "signal": "g", "cancel": "i", "cancelrun": "i", "cancelstart": "i", "startjoin": "j", "startsignal": "g", "twosignals": "g", "wfrow": "i"}[self.kind]
 
     def prefix_ups(self) -> int:
         """startjoin: upstream completions delivered before the race (the join is ready and its tracking key exists)"""
@@ -133,7 +149,10 @@ def scn_from(d: dict) -> Scn:
 
 
 def scenarios(thorough: bool, prop: str = "C07") -> list[Scn]:
-    s = []
+    wf = [Scn("wfrow", res="start"), Scn("wfrow", res="complete")]
+    if prop == "C17":
+        return wf
+    s = list(wf)
     for join, th in (("DISCRIMINATOR", 0), ("N_OF_M", 1), ("N_OF_M", 2)):
         for n in (2, 3):
             if prop == "C06" and (n == 3 or (not thorough and th == 1)):
@@ -172,6 +191,11 @@ def directions(scn: Scn, thorough: bool) -> list[dict]:
         return out
     if scn.kind == "startsignal":
         return [{"a": "SS(g)", "b": "SG(g)"}, {"a": "SG(g)", "b": "SS(g)"}]
+    if scn.kind == "wfrow":
+        h = "SW" if scn.res == "start" else "CW"
+        # drain = lifo: after the pair the NEWEST pending message is delivered first (a legal delivery order: StartStage(i) pushed by StartWorkflow
+        # overtakes the CancelStage fan-out), so that a lost cancel flag shows as a task that begins executing
+        return [{"a": h, "b": "XW"}, {"a": "XW", "b": h}, {"a": h, "b": "XW", "drain": "lifo"}, {"a": "XW", "b": h, "drain": "lifo"}]
     if scn.kind == "twosignals":
         return [{"a": "SG(g)@0", "b": "SG(g)@1"}, {"a": "SG(g)@1", "b": "SG(g)@0"}]       # @k = the k-th pending row with that code
     return [{"a": "XS(i)", "b": "CT(i)SUCC"}, {"a": "CT(i)SUCC", "b": "XS(i)"}]
@@ -182,6 +206,14 @@ def directions(scn: Scn, thorough: bool) -> list[dict]:
 # --------------------------------------------------------------------------------------
 
 HIST_SQL = """
+CREATE TABLE IF NOT EXISTS _ep_whist(seq INTEGER PRIMARY KEY AUTOINCREMENT, id TEXT, oldst TEXT, newst TEXT, oldc INTEGER, newc INTEGER,
+  oldby TEXT, newby TEXT, oldreason TEXT, newreason TEXT, oldpaused TEXT, newpaused TEXT);
+CREATE TRIGGER IF NOT EXISTS _ep_whist_t AFTER UPDATE ON pipeline_executions
+  BEGIN INSERT INTO _ep_whist(id, oldst, newst, oldc, newc, oldby, newby, oldreason, newreason, oldpaused, newpaused)
+        VALUES(NEW.id, OLD.status, NEW.status, OLD.is_canceled, NEW.is_canceled, OLD.canceled_by, NEW.canceled_by,
+               OLD.cancellation_reason, NEW.cancellation_reason, OLD.paused, NEW.paused); END;
+CREATE TRIGGER IF NOT EXISTS _ep_wcancel_t AFTER UPDATE ON pipeline_executions WHEN OLD.is_canceled <> NEW.is_canceled
+  BEGIN INSERT INTO _mb_audit(kind, id, old, new) VALUES('C', NEW.id, OLD.is_canceled, NEW.is_canceled); END;
 CREATE TABLE IF NOT EXISTS _ep_hist(seq INTEGER PRIMARY KEY AUTOINCREMENT, id TEXT, oldv INTEGER, newv INTEGER, oldst TEXT, newst TEXT, oldctx TEXT, newctx TEXT);
 CREATE TRIGGER IF NOT EXISTS _ep_hist_t AFTER UPDATE ON stage_executions
   BEGIN INSERT INTO _ep_hist(id, oldv, newv, oldst, newst, oldctx, newctx)
@@ -231,6 +263,12 @@ def _env_class():
 
         def hist(self, ref: str) -> list[dict]:
             return [dict(r) for r in self.q("SELECT oldv, newv, oldst, newst, oldctx, newctx FROM _ep_hist WHERE id=? ORDER BY seq", self.ids[ref])]
+
+        def whist(self) -> list[dict]:
+            return [dict(r) for r in self.q("SELECT * FROM _ep_whist WHERE id=? ORDER BY seq", self.wf_id)]
+
+        def wf_row(self) -> dict:
+            return dict(self.q("SELECT status, is_canceled, canceled_by, cancellation_reason FROM pipeline_executions WHERE id=?", self.wf_id)[0])
 
         def ctx_of(self, ref: str) -> dict:
             return json.loads(self.q("SELECT context FROM stage_executions WHERE id=?", self.ids[ref])[0]["context"] or "{}")
@@ -323,6 +361,15 @@ class Lab:
             done = env.ctx_of("j").get("_completed_branches") or []
             if done != [f"u{k + 1}" for k in range(scn.prefix_ups())] or env.stage_row("j")["status"] != "NOT_STARTED":
                 raise RuntimeError(f"base state of {scn.key()} has no history: {env.state_line()}")
+        elif scn.kind == "wfrow":
+            env.create_workflow([mb.stage("i"), mb.stage("d", {"i"})])
+            env.start()
+            if scn.res == "complete":
+                env.drain(max_steps=40, hold=lambda c: c.startswith("CW"))
+            env.push(CancelWorkflow(execution_type=env.wf_type, execution_id=env.wf_id, user="verif", reason="pair"))
+            want = ["SW" if scn.res == "start" else "CW", "XW"]
+            if env.wf_row()["is_canceled"]:
+                raise RuntimeError(f"base state of {scn.key()}: cancel flag already set: {env.state_line()}")
         elif scn.kind == "twosignals":
             env.create_workflow([mb.stage("g", tasks=False), mb.stage("d", {"g"})])
             env.start()
@@ -365,7 +412,8 @@ class Lab:
         r = scn.contended()
         row = env.stage_row(r)
         meta = {"ids": dict(env.ids), "refs": dict(env.refs), "wf_id": env.wf_id, "wf_type": env.wf_type, "v0": row["version"],
-                "st0": row["status"], "tasks0": env.tasks_of(r), "hist0": len(env.hist(r)), "audit0": len(env.audit())}
+                "st0": row["status"], "tasks0": env.tasks_of(r), "hist0": len(env.hist(r)), "audit0": len(env.audit()),
+                "whist0": len(env.whist())}
         snap = mb.snapshot(env)
         self.env = env
         return env, snap, meta
@@ -549,6 +597,8 @@ def legality_monitors(scn: Scn, env, audit0: int) -> list[tuple[str, str]]:
         for k, r in enumerate(env.q("SELECT id FROM task_executions WHERE stage_id=? ORDER BY id", sid)):
             tasks[r["id"]] = f"{ref}.t{k + 1}"
     for kind, ent, old, new in env.audit()[audit0:]:
+        if kind not in ("S", "T", "W"):
+            continue          # 'C' rows mark changes of pipeline_executions.is_canceled (workflow-row pairs), not status changes
         if can_transition(WorkflowStatus[old], WorkflowStatus[new]):
             continue
         who = tasks.get(ent, ent) if kind == "T" else ent
@@ -559,8 +609,43 @@ def legality_monitors(scn: Scn, env, audit0: int) -> list[tuple[str, str]]:
     return hits
 
 
+def workflow_monitors(scn: Scn, env, meta: dict) -> tuple[list[tuple[str, str]], list[tuple[str, str]]]:
+    """(C07 clause, C17 clause) on the history of the workflow row (race + drain) and the task ledger.
+    C07: no committed write reverts a column another worker committed (is_canceled 1 -> 0, canceled_by / cancellation_reason cleared, a final
+    status left).  C17: once a write with is_canceled = 1 committed (the CancelWorkflow handler ran on a non-final workflow), the flag is 1 at
+    the end and no task execution begins afterwards — the raced handlers (StartWorkflow / CompleteWorkflow / CancelWorkflow) execute no task, so
+    every execution in the ledger (cleared at the snapshot) began after the pair, i.e. after that commit."""
+    from harness import modeb as mb
+
+    c07, c17 = [], []
+    key = scn.key()
+    hist = env.whist()[meta["whist0"]:]
+    accepted = False
+    for h in hist:
+        desc = f"{h['oldst']}/c{h['oldc']} -> {h['newst']}/c{h['newc']}"
+        if h["oldc"] == 1 and h["newc"] != 1:
+            c07.append((f"a committed write of the workflow row ({desc}) set is_canceled back from 1 to {h['newc']}: the CancelWorkflow another worker "
+                        f"had committed was silently undone", SIG["wfrow"] + ":is_canceled"))
+        for col in ("by", "reason"):
+            if h["old" + col] is not None and h["new" + col] is None:
+                name = "canceled_by" if col == "by" else "cancellation_reason"
+                c07.append((f"a committed write of the workflow row ({desc}) cleared {name} ({h['old' + col]!r} -> NULL)", SIG["wfrow"] + ":" + name))
+        if h["oldst"] in COMPLETE and h["newst"] != h["oldst"]:
+            c07.append((f"a committed write of the workflow row left the final status {h['oldst']} -> {h['newst']}", SIG["wfrow"] + ":status"))
+        accepted = accepted or h["newc"] == 1
+    row = env.wf_row()
+    if accepted and row["is_canceled"] != 1:
+        c17.append((f"a write with is_canceled = 1 was committed (CancelWorkflow accepted) but at the end the workflow row has is_canceled = "
+                    f"{row['is_canceled']}, status {row['status']}: the cancel flag is not monotone; workflow-row history "
+                    f"{[(h['oldst'], h['oldc'], h['newst'], h['newc']) for h in hist]}", f"engine-pair:cancel-flag-lost:{key}"))
+    if accepted and mb.LEDGER:
+        c17.append((f"the cancel flag was committed during the pair, yet {len(mb.LEDGER)} task execution(s) began afterwards: {mb.LEDGER}; final "
+                    f"workflow row status {row['status']} is_canceled {row['is_canceled']}", f"engine-pair:exec-after-cancel:{key}"))
+    return c07, c17
+
+
 def final_abstract(scn: Scn, env) -> str:
-    parts = [f"W={env.wf_status()}"]
+    parts = [f"W={env.wf_status()}" + (f",c{env.wf_row()['is_canceled']}" if scn.kind == "wfrow" else "")]
     for ref in sorted(env.ids):
         r = env.stage_row(ref)
         c = env.ctx_of(ref)
@@ -602,19 +687,33 @@ def run_sched(lab: Lab, scn: Scn, snap, meta, d: dict, at: int, nest_at: int | N
     res["results"] = [o.result for o in out.ops]
     workers = [d["a"], d["b"]] + ([d["c"]] if nest_at is not None else [])
     res["post_race"] = env.state_line()
-    line, outs, successful = cas_line(scn, out.ops[0], meta, names)
-    res["line"] = line
     res["a_ncalls"] = len(A.calls)
-    res["impl"] = impl_final(scn, env, meta, outs, _present(scn, env.ctx_of(scn.contended()), workers, successful), names)
+    if scn.kind == "wfrow":
+        res["line"] = res["impl"] = None      # the workflow row has no version column: monitors only, no CasRow tie
+    else:
+        line, outs, successful = cas_line(scn, out.ops[0], meta, names)
+        res["line"] = line
+        res["impl"] = impl_final(scn, env, meta, outs, _present(scn, env.ctx_of(scn.contended()), workers, successful), names)
     race_hits = state_monitors(scn, env, "after the race")
-    reason, steps = env.drain(max_steps=100)
+    def newest_first(cand):
+        # budget-respecting like the FIFO drain: a delayed re-poll (code suffix rN) is delivered only when no immediate message is pending
+        now = [i for i, c in cand if not re.search(r"r\d+$", c)]
+        return max(now or [i for i, _ in cand])
+
+    reason, steps = env.drain(max_steps=100, order=newest_first if d.get("drain") == "lifo" else None)
     res["final"] = {"drain": [reason, steps], "state": env.state_line()}
     res["final_abs"] = final_abstract(scn, env)
     hist = env.hist(scn.contended())[meta["hist0"]:]
     res["history"] = [f"v{h['oldv']}->v{h['newv']} {h['oldst']}->{h['newst']} ctx {h['newctx']}" for h in hist]
-    res["audit"] = [f"{k}:{ent if k != 'T' else 'task'}:{old}>{new}" for k, ent, old, new in env.audit()[meta["audit0"]:]]
+    res["audit"] = [f"{k}:{'task' if k == 'T' else 'W' if k == 'C' else ent}:{old}>{new}" for k, ent, old, new in env.audit()[meta["audit0"]:]]
     res["c06"] = legality_monitors(scn, env, meta["audit0"])
+    res["c17"] = []
     hits = history_monitors(scn, hist) + race_hits + state_monitors(scn, env, "after the drain")
+    if scn.kind == "wfrow":
+        c07w, res["c17"] = workflow_monitors(scn, env, meta)
+        hits = c07w + hits
+        res["whistory"] = [f"{h['oldst']}/c{h['oldc']}->{h['newst']}/c{h['newc']}" for h in env.whist()[meta["whist0"]:]]
+        res["ledger"] = list(lab.mb.LEDGER)
     if reason != "empty":
         hits.append((f"the queue did not drain after the pair: {reason} after {steps} deliveries; {env.state_line()}", SIG_STUCK))
     seen = set()
@@ -726,7 +825,7 @@ def finish(ctx, h) -> None:
         if "replay" in u:
             ctx.count({"enginepair-replay": u["file"]}, nontrivial=True)
             ctx.tag("pair:replay")
-            for what, sig in (r.get("c06", []) if prop == "C06" else r["violations"]):
+            for what, sig in (r.get("c06", []) if prop == "C06" else r.get("c17", []) if prop == "C17" else r["violations"]):
                 ctx.violation(f"{what} (regression corpus {u['file']})", sig, {"enginepair": r["sched"], "trace": r["trace"], "replay_file": u["file"]})
     digest(ctx, [r for u, r in zip(units, results) if "replay" not in u], prop)
     ep = ctx.extra.setdefault("engine_pairs", {})
@@ -742,6 +841,8 @@ def run_for(ctx, prop: str) -> None:
 def _describe(sched: dict) -> str:
     d = sched["dir"]
     s = f"{scn_from(sched['scn']).key()}: A = {d['a']}, B = {d['b']} injected before DB call {sched['at']} of A"
+    if d.get("drain") == "lifo":
+        s += " (then newest-first drain)"
     if "nest_at" in sched:
         s += f", C = {d['c']} injected before DB call {sched['nest_at']} of B"
     return s
@@ -764,7 +865,7 @@ def digest(ctx, results: list[dict], prop: str = "C07") -> None:
     for r in allsched:
         if not r["blocked"] and "nest_at" not in r["sched"] and (r["sched"]["at"] == 0 or r["sched"]["at"] >= r["a_ncalls"]):
             sc = r["sched"]
-            seq.setdefault(scn_from(sc["scn"]).key() + "/" + "+".join(sorted([sc["dir"]["a"], sc["dir"]["b"]])), set()).add(r["final_abs"])
+            seq.setdefault(scn_from(sc["scn"]).key() + "/" + "+".join(sorted([sc["dir"]["a"], sc["dir"]["b"]])) + sc["dir"].get("drain", ""), set()).add(r["final_abs"])
     inputs, lines, impl = [], [], []
     for r in allsched:
         sched = r["sched"]
@@ -783,6 +884,13 @@ def digest(ctx, results: list[dict], prop: str = "C07") -> None:
             ctx.tag(f"pair:{scn.kind}:cas-conflict-then-retry")
         replay_obj = {"enginepair": sched, "trace": r["trace"], "history_of_contended_row": r.get("history"), "status_audit": r.get("audit"),
                       "post_race": r.get("post_race"), "final": r.get("final"), "cas": {"request": r["line"], "observed": r["impl"]}}
+        if prop == "C17":
+            ctx.tag("pair:cancel-" + ("accepted" if any("c1" in w.split("->")[1] for w in r.get("whistory", [])) else "not-accepted(workflow already final)"))
+            for what, sig in r.get("c17", []):
+                ctx.violation(f"{what}; schedule {_describe(sched)}", sig, {**replay_obj, "workflow_row_history": r.get("whistory"), "ledger": r.get("ledger")})
+            if r["inside"] and len([x for x in ctx.samples if "enginepair" in x]) < 2:
+                ctx.sample({"enginepair": sched, "workflow_row_history": r.get("whistory"), "status_audit": r.get("audit")})
+            continue
         if prop == "C06":
             ctx.tag(*(f"pair:audit:{a.split(':')[0]}:{a.split(':')[-1]}" for a in r.get("audit", [])))
             for what, sig in r.get("c06", []):
@@ -793,15 +901,16 @@ def digest(ctx, results: list[dict], prop: str = "C07") -> None:
         for what, sig in r["violations"]:
             ctx.violation(f"{what}; schedule {_describe(sched)}", sig, replay_obj)
         if "nest_at" not in sched and 0 < sched["at"] < r["a_ncalls"]:
-            key = scn.key() + "/" + "+".join(sorted([sched["dir"]["a"], sched["dir"]["b"]]))
+            key = scn.key() + "/" + "+".join(sorted([sched["dir"]["a"], sched["dir"]["b"]])) + sched["dir"].get("drain", "")
             if key in seq and r["final_abs"] not in seq[key]:
                 ctx.violation(f"the final state after the interleaved pair is {r['final_abs']}, which is the final state of neither sequential order "
                               f"{sorted(seq[key])}; schedule {_describe(sched)}", SIG_SEQ + ":" + scn.kind, replay_obj)
         if r["inside"] and len([x for x in ctx.samples if "enginepair" in x]) < 2:
             ctx.sample({"enginepair": sched, "cas": r["line"], "observed": r["impl"]})
-        inputs.append(sched)
-        lines.append(r["line"])
-        impl.append(r["impl"])
+        if r["line"] is not None:
+            inputs.append(sched)
+            lines.append(r["line"])
+            impl.append(r["impl"])
     if lines:
         bad = ctx.correspond(SUITE, inputs, lines, impl)
         ep["compared"] += len(lines)
@@ -859,7 +968,9 @@ def replay(ctx, body, prop: str = "C07") -> int:
     if out:
         print("  model                        :", out[0], "(agrees)" if out[0] == r["impl"] else "(DIFFERS)")
     print("  durable status changes (race + drain), in commit order:", " ".join(r.get("audit", [])))
-    hits = r.get("c06", []) if prop == "C06" else r["violations"]
+    if r.get("whistory") is not None:
+        print("  committed writes of the workflow row (status/is_canceled), in commit order:", " ".join(r["whistory"]), "| task executions after the snapshot:", r.get("ledger"))
+    hits = r.get("c06", []) if prop == "C06" else r.get("c17", []) if prop == "C17" else r["violations"]
     for what, sig in hits:
         print(f"PROPERTY FAILS: {what}  [{sig}]")
     if not hits:
